@@ -501,7 +501,375 @@ def sub_bip38(case):
     return {'devs': D.devs, 'n': D.n, 'nt': True if D.compared else [], 'out': D.out}
 
 
-SUBS = {'plain': sub_plain, 'ext': sub_ext, 'extunc': sub_extunc, 'bip38': sub_bip38}
+# --------------------------------------------------------------------------------- export histories
+# Histories of export / query / mutation calls on ONE live object.  A reference model (network, compression
+# flag, witness type, multisig; everything else is constant) is advanced in lock-step; the value returned by
+# EVERY call is compared with the reference encoding for the model state at that moment and the parameters of
+# that call, and re-imported.  After the history a fixed observation suite is run the same way.
+WIF_BYTES = sorted(set(nets.wif_ver(n_).hex() for n_ in NETS))
+HIST_NETS = ['bitcoin', 'dogecoin', 'litecoin', 'testnet', 'bitcoinlib_test']
+_IMPORT_MEMO = {}
+
+
+def key_alphabet(net):
+    own = nets.wif_ver(net).hex()
+    ev = [['wif']]
+    for b in WIF_BYTES:
+        if b != own:
+            ev += [['wif', 'b', b], ['wif', 'h', b]]
+    ev += [['wif', 'b', own], ['as_dict', True], ['as_dict', False], ['info'], ['address'], ['address_c', False],
+           ['address_c', True], ['public']]
+    return ev
+
+
+def hd_alphabet(net, thorough):
+    own = nets.wif_ver(net).hex()
+    others = [b for b in WIF_BYTES if b != own]
+    ev = [['xwif', None, None, None], ['xwif', True, None, None], ['xpub'], ['xprv'], ['wif_key']]
+    for b in (others if thorough else others[:2]):
+        ev += [['wif_key', 'b', b], ['wif_key', 'h', b]]
+    for w in WTS:
+        for m in (None, True):
+            ev += [['xwif', True, w, m], ['xwif', False, w, m]]
+    ev += [['xwif_prefix', 'b', '0488ade4', True], ['xwif_prefix', 'h', '043587cf', False],
+           ['as_dict', True], ['as_dict', False], ['info'], ['address'], ['public']]
+    ev += [['netchg', n_] for n_ in HIST_NETS]
+    return ev
+
+
+class _Model:
+    def __init__(self, cfg):
+        self.hd = cfg['cls'] == 'HDKey'
+        self.d = int(cfg['d'], 16)
+        self.pt = secp.pub(self.d)
+        self.net = cfg['net']
+        self.compressed = cfg['compressed']
+        self.wt = cfg.get('wt')
+        self.ms = cfg.get('ms', False)
+        self.chain = bytes.fromhex(cfg.get('chain', '00' * 32))
+        self.depth = cfg.get('depth', 0)
+        self.fp = bytes.fromhex(cfg.get('fp', '00000000'))
+        self.child = cfg.get('child', 0)
+        self.X = bip32.XKey(self.d, self.pt, self.chain, self.depth, self.fp, self.child)
+
+    def wif(self, ver_hex=None):
+        ver = bytes.fromhex(ver_hex) if ver_hex else nets.wif_ver(self.net)
+        return codec.b58check_encode(ver + self.d.to_bytes(32, 'big') + (b'\x01' if self.compressed else b''))
+
+    def xkey(self, priv, wt=None, ms=None):
+        """reference extended key string, or None when the golden table has no prefix (must be refused)"""
+        ver = nets.hd_prefix(self.net, bool(priv), wt or self.wt, bool(ms) or self.ms)
+        return None if ver is None else self.X.ser(ver, bool(priv))
+
+    def address(self):
+        from vf.ref import addr as raddr
+        h = codec.hash160(secp.ser(self.pt, self.compressed))
+        if self.hd and self.ms:
+            return None         # address of a cosigner key alone: not an export format, not demanded
+        if not self.hd or self.wt == 'legacy':
+            return raddr.addr_p2pkh(self.net, h)
+        if self.wt == 'p2sh-segwit':
+            return raddr.addr_p2sh(self.net, codec.hash160(b'\x00\x14' + h))
+        return raddr.addr_witness(self.net, 0, h)
+
+
+def _build(cfg):
+    from bitcoinlib.keys import Key, HDKey
+    d = int(cfg['d'], 16)
+    if cfg['cls'] == 'Key':
+        return Key(d, network=cfg['net'], compressed=cfg['compressed'])
+    return HDKey(key=d.to_bytes(32, 'big'), chain=bytes.fromhex(cfg['chain']), depth=cfg['depth'],
+                 parent_fingerprint=bytes.fromhex(cfg['fp']), child_index=cfg['child'], network=cfg['net'],
+                 witness_type=cfg['wt'], multisig=cfg['ms'], compressed=cfg['compressed'])
+
+
+def _parse_info(text):
+    out = {}
+    for line in text.splitlines():
+        line = line.strip()
+        for label in ('Network', 'Compressed', 'Private Key (wif)', 'Address (b58)', 'Extended Public Key (wif)',
+                      'Extended Private Key (wif)'):
+            if line.startswith(label + ' '):
+                out[label] = line[len(label):].strip()
+    return out
+
+
+def _reimport_wif(w, net):
+    from bitcoinlib.keys import Key
+    k_ = ('wif', w, net)
+    if k_ not in _IMPORT_MEMO:
+        try:
+            _IMPORT_MEMO[k_] = _key_fields(Key(w, network=net))
+        except Exception as e:
+            _IMPORT_MEMO[k_] = {'exc': _exc(e)}
+    return _IMPORT_MEMO[k_]
+
+
+def _reimport_x(s, net, wt, ms):
+    from bitcoinlib.keys import HDKey
+    k_ = ('x', s, net, wt, ms)
+    if k_ not in _IMPORT_MEMO:
+        try:
+            _IMPORT_MEMO[k_] = _hd_fields(HDKey(s, network=net, witness_type=wt, multisig=ms))
+        except Exception as e:
+            _IMPORT_MEMO[k_] = {'exc': _exc(e)}
+    return _IMPORT_MEMO[k_]
+
+
+def _diff_class(got, exp):
+    """Names the components in which an exported string differs from the reference string."""
+    if not isinstance(got, str):
+        return 'not_a_string'
+    a, b = codec.b58check_decode(got), codec.b58check_decode(exp)
+    if a is None or b is None:
+        return 'differs' if b is None else 'not_base58check'
+    if len(b) in (33, 34) and len(a) in (33, 34):
+        parts = [n_ for n_, x, y in (('version_byte', a[:1], b[:1]), ('secret', a[1:33], b[1:33]),
+                                     ('compressed_flag', a[33:], b[33:])) if x != y]
+    elif len(b) == 78 and len(a) == 78:
+        parts = [n_ for n_, i, j in (('version', 0, 4), ('depth', 4, 5), ('fingerprint', 5, 9), ('child', 9, 13),
+                                     ('chain', 13, 45), ('key', 45, 78)) if a[i:j] != b[i:j]]
+    else:
+        return 'other_layout_len%d' % len(a)
+    return 'differs_in_' + '+'.join(parts)
+
+
+_KIND_SITE = {'wif()': 'wif_export', 'wif(prefix)': 'wif_export', 'wif_key()': 'wif_export',
+              'wif_key(prefix)': 'wif_export', 'as_dict[wif]': 'wif_export', 'info[Private Key (wif)]': 'wif_export',
+              'address()': 'address', 'address(compressed=)': 'address', 'as_dict[address]': 'address',
+              'info[Address (b58)]': 'address'}
+
+
+def _site(kind):
+    """wif_export: everything that ends in Key.wif(); xkey_export: everything that ends in HDKey.wif()."""
+    return 'hist:' + _KIND_SITE.get(kind, 'xkey_export' if ('wif' in kind or 'Extended' in kind) else kind)
+
+
+class _HistRun:
+    """Executes one history on one object; compares every returned export with the model."""
+
+    def __init__(self, D, cfg, obj):
+        self.D = D
+        self.cfg = cfg
+        self.m = _Model(cfg)
+        self.k = obj
+        self.hist = []
+        self.earlier = set()      # every export string returned or expected earlier in this history
+
+    def _det(self, **kw):
+        d = {'cfg': {a: b for a, b in self.cfg.items() if a in ('cls', 'd', 'net', 'compressed', 'wt', 'ms')},
+             'history': list(self.hist), 'model_network': self.m.net, 'model_compressed': self.m.compressed}
+        d.update(kw)
+        return d
+
+    def check_str(self, kind, got, exp, reimport=None):
+        """kind: small fixed name of the export; exp None = the call must be refused."""
+        D = self.D
+        D.n += 1
+        site = _site(kind)
+        if isinstance(got, Exception):
+            if exp is None:
+                D.bump('refused_unsupported')
+            else:
+                D.dev('%s|raises' % site, self._det(call=kind, exc=_exc(got), expected=exp))
+            return
+        if exp is None:
+            D.dev('%s|prefix_for_unsupported_combination' % site, self._det(call=kind, got=got))
+            return
+        if got != exp:
+            cls = _diff_class(got, exp) if site != 'hist:address' else 'differs'
+            D.dev('%s|%s' % (site, cls), self._det(call=kind, got=got, expected=exp,
+                                                   returned_or_valid_earlier=got in self.earlier))
+        else:
+            D.compared += 1
+            D.bump('export_equal')
+        self.earlier.add(exp)
+        if isinstance(got, str):
+            self.earlier.add(got)
+        if reimport and got == exp:
+            f = reimport(got)
+            want = {'secret': self.m.d if f.get('is_private', True) else None, 'network': self.m.net}
+            if 'exc' in f:
+                D.dev('%s|reimport_refused' % site, self._det(call=kind, got=got, exc=f['exc']))
+            elif any(f.get(a) != b for a, b in want.items()):
+                D.dev('%s|reimport_differs' % site, self._det(call=kind, got=got, imported=f))
+
+    def step(self, ev):
+        import contextlib
+        import io
+        k, m = self.k, self.m
+        self.hist.append(ev)
+        op = ev[0]
+
+        def call(f):
+            try:
+                return f()
+            except Exception as e:
+                return e
+        if op in ('wif', 'wif_key'):
+            meth = k.wif if (op == 'wif' and not m.hd) else k.wif_key
+            if op == 'wif' and m.hd:
+                raise AssertionError('wif on HDKey is xwif')
+            if len(ev) == 1:
+                got = call(meth)
+                self.check_str(op + '()', got, m.wif(), lambda w: _reimport_wif(w, m.net))
+            else:
+                pref = bytes.fromhex(ev[2]) if ev[1] == 'b' else ev[2]
+                got = call(lambda: meth(prefix=pref))
+                self.check_str(op + '(prefix)', got, m.wif(ev[2]))
+        elif op == 'xwif':
+            _, P, W, M = ev
+            kw = {}
+            if P is not None:
+                kw['is_private'] = P
+            if W is not None:
+                kw['witness_type'] = W
+            if M is not None:
+                kw['multisig'] = M
+            got = call(lambda: k.wif(**kw))
+            weff, meff = W or m.wt, bool(M) or m.ms
+            self.check_str('wif(%s)' % ('plain' if W is None and M is None else 'witness_type,multisig'), got,
+                           m.xkey(P, W, M), lambda s_: _reimport_x(s_, m.net, weff, meff))
+        elif op == 'xpub':
+            self.check_str('wif_public()', call(k.wif_public), m.xkey(False),
+                           lambda s_: _reimport_x(s_, m.net, m.wt, m.ms))
+        elif op == 'xprv':
+            self.check_str('wif_private()', call(k.wif_private), m.xkey(True),
+                           lambda s_: _reimport_x(s_, m.net, m.wt, m.ms))
+        elif op == 'xwif_prefix':
+            _, form, ver, P = ev
+            pref = bytes.fromhex(ver) if form == 'b' else ver
+            got = call(lambda: k.wif(is_private=P, prefix=pref))
+            self.check_str('wif(prefix)', got, m.X.ser(bytes.fromhex(ver), P))
+        elif op == 'as_dict':
+            got = call(lambda: k.as_dict(include_private=ev[1]))
+            self.D.n += 1
+            if isinstance(got, Exception):
+                if m.hd and m.xkey(False) is None:
+                    self.D.bump('refused_unsupported')
+                else:
+                    self.D.dev('hist:%s.as_dict|raises' % self.cfg['cls'], self._det(exc=_exc(got)))
+                return
+            self._check_fields('as_dict', got, {'network': m.net, 'compressed': m.compressed, 'wif': m.wif(),
+                                                'address': m.address(), 'extended_wif_public': m.xkey(False) if m.hd else None,
+                                                'extended_wif_private': m.xkey(True) if m.hd else None,
+                                                'private_hex': '%064x' % m.d, 'secret': m.d})
+        elif op == 'info':
+            buf = io.StringIO()
+            with contextlib.redirect_stdout(buf):
+                got = call(k.info)
+            self.D.n += 1
+            if isinstance(got, Exception):
+                if m.hd and m.xkey(False) is None:
+                    self.D.bump('refused_unsupported')
+                else:
+                    self.D.dev('hist:%s.info|raises' % self.cfg['cls'], self._det(exc=_exc(got)))
+                return
+            f = _parse_info(buf.getvalue())
+            self._check_fields('info', f, {'Network': m.net, 'Compressed': str(m.compressed), 'Private Key (wif)': m.wif(),
+                                           'Address (b58)': m.address(),
+                                           'Extended Public Key (wif)': m.xkey(False) if m.hd else None,
+                                           'Extended Private Key (wif)': m.xkey(True) if m.hd else None})
+        elif op == 'address':
+            exp = m.address()
+            got = call(k.address)
+            if exp is not None:
+                self.check_str('address()', got, exp)
+        elif op == 'address_c':
+            # Key.address(compressed=X) assigns self.compressed = X: the flag is state of the object
+            m.compressed = ev[1]
+            got = call(lambda: k.address(compressed=ev[1]))
+            self.check_str('address(compressed=)', got, m.address())
+        elif op == 'netchg':
+            got = call(lambda: k.network_change(ev[1]))
+            m.net = ev[1]
+            if isinstance(got, Exception):
+                self.D.dev('hist:HDKey.network_change|raises', self._det(exc=_exc(got)))
+        elif op == 'public':
+            pk = call(k.public)
+            self.D.n += 1
+            if isinstance(pk, Exception):
+                self.D.dev('hist:%s.public|raises' % self.cfg['cls'], self._det(exc=_exc(pk)))
+                return
+            leak = None
+            for name in ('wif', 'wif_key', 'wif_private'):
+                if not hasattr(pk, name):
+                    continue
+                r = call(getattr(pk, name))
+                if isinstance(r, str) and r in (m.wif(), m.xkey(True)) + tuple(
+                        w for w in self.earlier if w not in (m.xkey(False),) and _is_private_string(w)):
+                    leak = (name, r)
+            if leak or pk.secret is not None or pk.is_private:
+                self.D.dev('hist:%s.public()|private_material_in_public_copy' % self.cfg['cls'],
+                           self._det(leak=leak, secret=pk.secret))
+            if m.hd:
+                self.check_str('public().wif_public()', call(pk.wif_public), m.xkey(False))
+        else:
+            raise AssertionError(ev)
+
+    def _check_fields(self, kind, got, exp):
+        for f, v in exp.items():
+            if v is None or f not in got:
+                continue
+            self.D.n += 1
+            g = got[f]
+            if g != v:
+                site = _site('%s[%s]' % (kind, f))
+                if isinstance(v, str) and site != 'hist:address' and codec.b58check_decode(v) is not None:
+                    cls = _diff_class(g, v)
+                else:
+                    cls = 'differs'
+                self.D.dev('%s|%s' % (site, cls), self._det(call='%s[%s]' % (kind, f), got=g, expected=v,
+                                                           returned_or_valid_earlier=g in self.earlier))
+            else:
+                self.D.compared += 1
+            if isinstance(v, str):
+                self.earlier.add(v)
+            if isinstance(g, str):
+                self.earlier.add(g)
+
+    def observe(self):
+        m = self.m
+        if m.hd:
+            suite = [['wif_key'], ['xprv'], ['xpub'], ['xwif', None, None, None], ['as_dict', True], ['wif_key']]
+        else:
+            suite = [['wif']] + [['wif', 'b', b] for b in WIF_BYTES] + [['wif'], ['as_dict', True], ['wif']]
+        for ev in suite:
+            self.step(ev)
+
+
+def _is_private_string(w):
+    p_ = codec.b58check_decode(w)
+    if p_ is None:
+        return False
+    if len(p_) in (33, 34):
+        return True
+    return len(p_) == 78 and p_[45] == 0
+
+
+def sub_hist(case):
+    """case = {'cfg': {...}, 'first': [events], 'alphabet': [[event]...], 'L': max history length}.
+    All histories first + (every sequence of length <= L - len(first) over the alphabet)."""
+    import copy
+    import itertools
+    D = Devs()
+    cfg = case['cfg']
+    template = _build(cfg)
+    rest = case['L'] - len(case['first'])
+    tails = [()]
+    for ln in range(1, rest + 1):
+        tails += list(itertools.product(case['alphabet'], repeat=ln))
+    for tail in tails:
+        run = _HistRun(D, cfg, copy.deepcopy(template))
+        for ev in list(case['first']) + list(tail):
+            run.step(ev)
+        run.observe()
+        D.bump('histories')
+    return {'devs': D.devs, 'n': D.n, 'nt': True if D.compared else [], 'out': D.out, 'traces': len(tails)}
+
+
+SUBS = {'plain': sub_plain, 'ext': sub_ext, 'extunc': sub_extunc, 'bip38': sub_bip38, 'hist': sub_hist}
+
 
 
 # --------------------------------------------------------------------------------- enumeration
@@ -578,6 +946,32 @@ def run(ctx):
             bkeys += [(d, c, net) for d in (special[12], window[1]) for c in (True, False) for net in NETS]
         ctx.pmap('bip38', [{'d': '%x' % d, 'compressed': c, 'net': net, 'password': 'C12 passé'} for d, c, net in bkeys],
                  chunk=1)
+    # ---- export histories on one live object
+    L = 2 if q else 3
+    hcases = []
+    hsecret = [special[13], N - 2] if not q else [special[13]]
+    for d in hsecret:
+        for net in (['bitcoin', 'litecoin'] if q else ['bitcoin', 'litecoin', 'dogecoin_testnet']):
+            for c in (True, False):
+                cfg = {'cls': 'Key', 'd': '%x' % d, 'net': net, 'compressed': c}
+                al = key_alphabet(net)
+                hcases += [{'cfg': cfg, 'first': [e], 'alphabet': al, 'L': L} for e in al]
+                hcases.append({'cfg': cfg, 'first': [], 'alphabet': al, 'L': 0})
+    hdcfg = [('bitcoin', 'segwit', False), ('bitcoin', 'legacy', True), ('litecoin', 'p2sh-segwit', False)]
+    if not q:
+        hdcfg += [('testnet', 'segwit', True), ('dogecoin', 'legacy', False)]
+    for net, wt, ms in hdcfg:
+        cfg = {'cls': 'HDKey', 'd': '%x' % hsecret[0], 'net': net, 'compressed': True, 'wt': wt, 'ms': ms,
+               'chain': chains[3], 'depth': 3, 'fp': fps[3], 'child': (1 << 31) + 5}
+        al = hd_alphabet(net, not q)
+        if q:
+            hcases += [{'cfg': cfg, 'first': [e], 'alphabet': al, 'L': L} for e in al]
+        else:
+            hcases += [{'cfg': cfg, 'first': [e, f], 'alphabet': al, 'L': L} for e in al for f in al]
+            hcases += [{'cfg': cfg, 'first': [e], 'alphabet': al, 'L': 1} for e in al]
+        hcases.append({'cfg': cfg, 'first': [], 'alphabet': al, 'L': 0})
+    if want('hist'):
+        ctx.pmap('hist', hcases, chunk=1)
     ctx.note('bounds', {
         'plain_keys': '%d secrets (%d special incl. leading-zero / ending-01 / prefix lookalikes, [1,%d], %d seed '
                       'window(s) of %d consecutive secrets) x compressed flag x 11 networks (WIF), 6 plain import '
@@ -586,4 +980,9 @@ def run(ctx):
         'extended': '%d secrets x 11 networks x %d (depth, child) pairs x 3 witness types x {single,multisig} x '
                     '{private,public} x 5 import entry points; chain x fingerprint alphabets 4x4' % (len(ekeys), len(dcs)),
         'depth_child_alphabet': [list(x) for x in dcs],
+        'export_histories': 'every sequence of length <= %d over the export/query/mutation alphabet (Key: %d events, '
+                            'HDKey: %d events incl. network_change to %s) on one live object, for %d Key and %d HDKey '
+                            'configurations; every returned export compared with the reference for the model state, '
+                            'then a fixed observation suite' % (L, len(key_alphabet('bitcoin')), len(hd_alphabet('bitcoin', not q)),
+                                                                 HIST_NETS, len(hsecret) * (2 if q else 3) * 2, len(hdcfg)),
     })
